@@ -222,7 +222,9 @@ class Term:
         self.components = []
         for component in components:
             if component not in self.components:
-                self.components.append(component)
+                # Every term owns its components. The operators build new terms out of the
+                # components of their operands, and each term ends up with its own encoding.
+                self.components.append(deepcopy(component))
         self.data = None
         self.kind = None
         self.name = ":".join([str(component.name) for component in self.components])
